@@ -299,6 +299,115 @@ def run_history(history, initial="ATTEMPT_ONLINE", sub="REMOTE", probe="s1f2", e
     return out
 
 
+# ------------------------------------------------------------------------------------------ a host request against an operator switch
+REGION = [
+    "secsgem.common.state_machine:StateMachine._perform_transition",
+    "secsgem.common.state_machine:StateMachine._check_transition_source",
+    "secsgem.common.state_machine:StateMachine._execute_transition",
+    "secsgem.gem.control_state_machine:ControlStateMachine.*",
+]
+OPS = {"op_offline": "control_switch_offline", "op_local": "control_switch_online_local", "op_remote": "control_switch_online_remote"}
+
+
+def ref_step(state, sub, action):
+    """E30 control table for one request: (state, sub) -> (state, sub, answer); answer = ack code or operator 'ok'/'refused'."""
+    online = state.startswith("ONLINE")
+    if action == "s1f15":
+        return ("HOST_OFFLINE" if online else state), sub, 0
+    if action == "s1f17":
+        if state == "HOST_OFFLINE":
+            return "ONLINE_" + sub, sub, 0
+        return state, sub, (2 if online else 1)
+    if action == "op_offline":
+        return ("EQUIPMENT_OFFLINE", sub, "ok") if online else (state, sub, "refused")
+    if action == "op_local":
+        return ("ONLINE_LOCAL", "LOCAL", "ok") if state == "ONLINE_REMOTE" else (state, sub, "refused")
+    if action == "op_remote":
+        return ("ONLINE_REMOTE", "REMOTE", "ok") if state == "ONLINE_LOCAL" else (state, sub, "refused")
+    raise ValueError(action)
+
+
+def run_conc(devs, budgets, initial="ONLINE", sub="REMOTE", host="s1f15", op="op_local"):
+    """The host's S1F15/S1F17 (handled on the dispatcher thread) and an operator switch (application thread) at the same time:
+    state, acknowledge code and operator outcome must be those of one of the two serial orders."""
+    box = {}
+
+    def driver(s):
+        s.frozen = True
+        s.line_points = False
+        ep = gh.GemEndpoint("equipment", handler_kwargs={"initial_control_state": initial, "initial_online_control_state": sub})
+        h = ep.handler
+        if not ep.establish(s):
+            box["harness"] = f"could not establish communication: {ep.comm()}"
+            return
+        box["start"] = h.control_state.current.name
+        res = {}
+
+        def operator():
+            try:
+                getattr(h, OPS[op])()
+                res["op"] = "ok"
+            except Exception as exc:  # noqa: BLE001
+                res["op"] = "refused" if type(exc).__name__ == "WrongSourceStateError" else f"raised {exc!r}"
+
+        s.frozen = False
+        s.line_points = True
+        sysb = ep.send_primary(1, 15 if host == "s1f15" else 17, True)
+        t = vrt.Thread(target=operator, name="operator")
+        t.start()
+        t.join(60.0)
+        s.settle()
+        s.line_points = False
+        s.frozen = True
+        frames = ep.pump()
+        mine = [f for f in frames if f["stype"] == 0 and f["system"] == sysb]
+        box["ack"] = [(f["function"], f["body"].hex()) for f in mine]
+        box["op"] = res.get("op", "did-not-return")
+        box["state"] = h.control_state.current.name
+        # SVID 1002 afterwards
+        sysb = ep.send_primary(1, 3, True, e5.enc(("L", [u(1002)])))
+        s.settle()
+        rep = [f for f in ep.pump() if f["stype"] == 0 and f["system"] == sysb]
+        box["sv"] = rep[0]["body"].hex() if rep else None
+        h.disable()
+
+    sched = vrt.run(driver, devs, budgets, max_steps=500000, max_time=1e6, line_points=True)
+    res = {"trace": sched.trace, "v": []}
+    case = {"part": "conc", "initial": initial, "sub": sub, "host": host, "op": op}
+    if sched.harness_failure or sched.driver_exception or box.get("harness"):
+        res["harness"] = (sched.harness_failure or sched.driver_exception or box.get("harness"))[-1200:]
+        res["obs"] = None
+        return res
+    if sched.outcome != "done":
+        res["v"].append((f"C11|concurrent|execution-{sched.outcome}|{host}+{op}", {"case": case, "info": sched.deadlock_info}))
+        res["obs"] = sched.outcome
+        return res
+    start = box["start"]
+    allowed = []
+    for first, second in ((host, op), (op, host)):
+        st, sb, a1 = ref_step(start, sub, first)
+        st, sb, a2 = ref_step(st, sb, second)
+        ack, opres = (a1, a2) if first == host else (a2, a1)
+        allowed.append((st, ack, opres))
+    fn = 16 if host == "s1f15" else 18
+    got_ack = None
+    if len(box["ack"]) == 1 and box["ack"][0][0] == fn and len(box["ack"][0][1]) == 6:
+        got_ack = int(box["ack"][0][1][4:6], 16)
+    got = (box["state"], got_ack, box["op"])
+    res["obs"] = {"got": got}
+    if got not in allowed:
+        res["v"].append((f"C11|concurrent|not-a-serial-outcome|{host}+{op}|from={start}|got={got[0]}/{got[1]}/{got[2]}",
+                         {"case": case, "allowed": allowed, "got": got, "acks": box["ack"]}))
+    want_sv = e5.enc(("L", [("B", bytes([CODE.get(box["state"], 0)]))])).hex()
+    if box["sv"] != want_sv:
+        res["v"].append((f"C11|concurrent|svid-1002-differs-from-state|{host}+{op}", {"case": case, "sv": box["sv"], "state": box["state"]}))
+    return res
+
+
+CONC = [("ONLINE", "REMOTE", "s1f15", "op_local"), ("ONLINE", "LOCAL", "s1f15", "op_remote"), ("ONLINE", "REMOTE", "s1f15", "op_offline"),
+        ("HOST_OFFLINE", "REMOTE", "s1f17", "op_offline"), ("HOST_OFFLINE", "LOCAL", "s1f17", "op_remote"), ("ONLINE", "LOCAL", "s1f17", "op_offline")]
+
+
 def configs(thorough):
     for initial in ("EQUIPMENT_OFFLINE", "ATTEMPT_ONLINE", "HOST_OFFLINE", "ONLINE"):
         for sub in ("LOCAL", "REMOTE"):
@@ -314,10 +423,31 @@ def run(ctx):
         "reference = DESIGN.md Appendix C control table; an attempt-online failure may land in HOST or EQUIPMENT OFF-LINE (E30 allows both)",
         "collection events are compared by CEID only; the host side of the harness acknowledges S6F11",
         "operator calls run on their own thread; while an attempt-online probe is unanswered no further operator call is issued",
+        "concurrent part: S1F15/S1F17 on the dispatcher thread against one operator switch on an application thread, every schedule with "
+        "<= K delays at line granularity of the state-machine engine; oracle = the outcome of one of the two serial orders (reference table)",
     ]
     d0, d1 = (4, 10) if ctx.thorough else (2, 9)
     states = trans = 0
     parts = []
+    # S part first (line tracing before any pool is forked): a host request racing an operator switch, <= K delays
+    from checks import hsms_harness as hh  # noqa: PLC0415
+    from mc import explore  # noqa: PLC0415
+
+    missing = hh.trace_region(REGION)
+    if missing:
+        ctx.note(f"not line-traced (not found): {missing}")
+    k = 2 if ctx.thorough else 1
+    cparts = []
+    for initial, sub, host, op in CONC:
+        st = explore.explore(ctx, run_conc, {"sched": k}, f"c11-conc-{initial}-{sub}-{host}-{op}",
+                             opts={"initial": initial, "sub": sub, "host": host, "op": op}, chunk=8)
+        cparts.append({"initial": initial, "sub": sub, "host": host, "op": op, "executions": st["executions"], "outcomes": st["distinct_outcomes"],
+                       "levels_completed": st["levels_completed"]})
+        trans += st["executions"]
+        if st["levels_completed"] < k:
+            ctx.exhaustive = False
+    ctx.setcov("concurrent_explorations", cparts)
+    ctx.setcov("delay_bound", k)
     for cfg in configs(ctx.thorough):
         name = "c11-{initial}-{sub}-{probe}-{events_on}".format(**cfg)
         st = hbfs.search(ctx, run_history, ALPHABET, name, d0, d1, opts=cfg)
@@ -338,6 +468,17 @@ def run(ctx):
 
 def replay(ctx, detail):
     case = detail["case"]
+    if case.get("part") == "conc":
+        from checks import hsms_harness as hh  # noqa: PLC0415
+
+        hh.trace_region(REGION)
+        devs = {int(k): v for k, v in case.get("devs", {}).items()}
+        r = run_conc(devs, case.get("budgets", {}), initial=case["initial"], sub=case["sub"], host=case["host"], op=case["op"])
+        ctx.evaluations += 1
+        print("replayed:", r.get("obs"))
+        for sig, d in r["v"]:
+            ctx.violation(sig, d)
+        return
     opts = case.get("opts", {})
     r = run_history(case["history"], **opts)
     ctx.evaluations += 1
